@@ -484,3 +484,351 @@ Proof.
       cbn [deliver].
       destruct (fetch_row c s r0 false) eqn:Fv; try congruence; inversion E; subst; repeat split; auto; apply I.
 Qed.
+
+(* ================================================================== top-level statements for pull / peek *)
+Theorem pull_refines c s p sd now s' res :
+  qinv c p s -> op_pull c s p sd now = (s', res) ->
+  let L := drop_expired now (oriented sd (queue_view p s)) in
+  res = deliver c s L /\ oriented sd (queue_view p s') = tl L /\ qinv c p s' /\
+  (forall r, In r (tl L) -> fetch_row c s' r false = fetch_row c s r false) /\ frame p s s'.
+Proof.
+  intros I E. unfold op_pull in E.
+  assert (Len : (length (queue_view p s) < S (length (rows s)))%nat) by (pose proof (queue_view_length p s); lia).
+  destruct (pull_loop_spec c p sd now _ _ _ _ I Len E) as [A [B [C [D [F _]]]]]. cbv zeta. auto.
+Qed.
+
+Theorem peek_refines c s p sd now s' res :
+  qinv c p s -> op_peek c s p sd now = (s', res) ->
+  let L := drop_expired now (oriented sd (queue_view p s)) in
+  res = deliver c s L /\ oriented sd (queue_view p s') = L /\ qinv c p s' /\
+  (forall r, In r L -> fetch_row c s' r false = fetch_row c s r false) /\ frame p s s'.
+Proof.
+  intros I E. unfold op_peek in E.
+  assert (Len : (length (queue_view p s) < S (length (rows s)))%nat) by (pose proof (queue_view_length p s); lia).
+  destruct (peek_loop_spec c p sd now _ _ _ _ I Len E) as [A [B [C [D [F _]]]]]. cbv zeta. auto.
+Qed.
+
+(* peek returns what the next pull from that side returns, and removes only heads whose time has passed *)
+Theorem peek_is_next_pull c s p sd now :
+  qinv c p s ->
+  snd (op_peek c s p sd now) = snd (op_pull c s p sd now)
+  /\ snd (op_pull c (fst (op_peek c s p sd now)) p sd now) = snd (op_peek c s p sd now)
+  /\ oriented sd (queue_view p (fst (op_peek c s p sd now))) = drop_expired now (oriented sd (queue_view p s)).
+Proof.
+  intros I.
+  destruct (op_peek c s p sd now) as [s1 r1] eqn:E1. destruct (op_pull c s p sd now) as [s2 r2] eqn:E2.
+  destruct (peek_refines _ _ _ _ _ _ _ I E1) as [A1 [B1 [C1 [D1 _]]]].
+  destruct (pull_refines _ _ _ _ _ _ _ I E2) as [A2 _]. cbn [fst snd].
+  split; [congruence|]. split; [|exact B1].
+  destruct (op_pull c s1 p sd now) as [s3 r3] eqn:E3.
+  destruct (pull_refines _ _ _ _ _ _ _ C1 E3) as [A3 _]. cbn [snd].
+  rewrite A3, A1, B1, drop_expired_idem.
+  destruct (drop_expired now (oriented sd (queue_view p s))) as [|r0 L] eqn:D; [reflexivity|]. cbn [deliver].
+  rewrite D1; [reflexivity|left; reflexivity].
+Qed.
+
+(* ================================================================== isolation *)
+(* frame without any assumption on what sits in the range of p: the row selected by pull/peek lies in the
+   range of p, and the DELETE addresses exactly that row *)
+Lemma delete_selected_frame p s r0 (wh : row -> bool) :
+  (forall r, wh r = (rowid r =? rowid r0)) -> st_ok s -> In r0 (rows s) -> in_range p r0 = true ->
+  frame p s (t_delete wh s) /\ st_ok (t_delete wh s).
+Proof.
+  intros Wh Ok H0 I0. unfold frame, st_ok. rewrite rows_t_delete. split; [|apply NoDup_map_filter, Ok].
+  apply filter_absorb. intros x Hx Nx. rewrite Wh. apply negb_true_iff, Z.eqb_neq. intros E.
+  assert (x = r0) by (eapply (map_inj_in rowid); eauto). subst x. rewrite I0 in Nx. discriminate.
+Qed.
+
+Lemma frame_rows p s s1 s2 : rows s2 = rows s1 -> frame p s s1 -> frame p s s2.
+Proof. unfold frame. intros ->. auto. Qed.
+Lemma st_ok_rows s1 s2 : rows s2 = rows s1 -> st_ok s1 -> st_ok s2.
+Proof. unfold st_ok. intros ->. auto. Qed.
+
+Lemma selected_in_range p sd t r0 l :
+  take 1 (match sd with Front => range_sorted p t | Back => rev (range_sorted p t) end) = r0 :: l ->
+  In r0 t /\ in_range p r0 = true.
+Proof.
+  rewrite take_1. intros E.
+  assert (H : In r0 (range_sorted p t)).
+  { destruct sd.
+    - apply in_rev. destruct (rev (range_sorted p t)); inversion E; subst. left; reflexivity.
+    - destruct (range_sorted p t); inversion E; subst. left; reflexivity. }
+  unfold range_sorted in H. apply sort_stable_in, filter_In in H. exact H.
+Qed.
+
+Lemma pull_loop_frame c p sd now : forall fuel s, st_ok s ->
+  frame p s (fst (op_pull_loop fuel c s p sd now)) /\ st_ok (fst (op_pull_loop fuel c s p sd now)).
+Proof.
+  induction fuel as [|f IH]; intros s Ok; [split; [apply frame_refl|exact Ok]|].
+  cbn [op_pull_loop]. rewrite bridge_pull_select.
+  destruct (take 1 _) as [|r0 l] eqn:Sel; [split; [apply frame_refl|exact Ok]|].
+  destruct (selected_in_range _ _ _ _ _ Sel) as [H0 I0].
+  destruct (delete_selected_frame p s r0 (pull_delete (rowid r0) (rows s)) (fun r => bridge_pull_delete _ _ r) Ok H0 I0) as [F1 Ok1].
+  set (s2 := fs_remove (t_delete (pull_delete (rowid r0) (rows s)) s) [rfile r0]).
+  assert (F2 : frame p s s2) by (eapply frame_rows; [apply rows_fs_remove|exact F1]).
+  assert (Ok2 : st_ok s2) by (eapply st_ok_rows; [apply rows_fs_remove|exact Ok1]).
+  destruct (IH s2 Ok2) as [F3 Ok3].
+  destruct (pull_expired (expire_time r0) now); [split; [eapply frame_trans; eauto|exact Ok3]|].
+  destruct (fetch_row c _ r0 false); cbn [fst]; try (split; [exact F2|exact Ok2]).
+  split; [eapply frame_trans; eauto|exact Ok3].
+Qed.
+
+Lemma peek_loop_frame c p sd now : forall fuel s, st_ok s ->
+  frame p s (fst (op_peek_loop fuel c s p sd now)) /\ st_ok (fst (op_peek_loop fuel c s p sd now)).
+Proof.
+  induction fuel as [|f IH]; intros s Ok; [split; [apply frame_refl|exact Ok]|].
+  cbn [op_peek_loop]. rewrite bridge_peek_select.
+  destruct (take 1 _) as [|r0 l] eqn:Sel; [split; [apply frame_refl|exact Ok]|].
+  destruct (selected_in_range _ _ _ _ _ Sel) as [H0 I0].
+  destruct (peek_expired (expire_time r0) now).
+  - destruct (delete_selected_frame p s r0 (peek_delete (rowid r0) (rows s)) (fun r => bridge_peek_delete _ _ r) Ok H0 I0) as [F1 Ok1].
+    set (s2 := fs_remove (t_delete (peek_delete (rowid r0) (rows s)) s) [rfile r0]).
+    assert (F2 : frame p s s2) by (eapply frame_rows; [apply rows_fs_remove|exact F1]).
+    assert (Ok2 : st_ok s2) by (eapply st_ok_rows; [apply rows_fs_remove|exact Ok1]).
+    destruct (IH s2 Ok2) as [F3 Ok3]. split; [eapply frame_trans; eauto|exact Ok3].
+  - destruct (fetch_row c s r0 false); cbn [fst]; split; try apply frame_refl; exact Ok.
+Qed.
+
+(* prefixes whose ranges cannot meet: neither "p-" followed by a digit is a prefix of "q-" nor the converse *)
+Definition digit_ext (P Q : list Z) : Prop := exists c t, is_digit c = true /\ Q = P ++ c :: t.
+Definition prefix_disjoint (p q : option (list Z)) : Prop :=
+  match p, q with
+  | Some a, Some b => a <> b /\ ~ digit_ext (a ++ [45]) (b ++ [45]) /\ ~ digit_ext (b ++ [45]) (a ++ [45])
+  | None, None => False
+  | _, _ => True
+  end.
+
+Lemma prefix_disjoint_sym p q : prefix_disjoint p q -> prefix_disjoint q p.
+Proof. destruct p, q; cbn; auto. intros [A [B C]]. repeat split; auto. Qed.
+
+(* two text strings that both continue a "prefix-" with a digit *)
+Lemma shapes_clash a b c1 r1 c2 r2 :
+  a <> b -> ~ digit_ext (a ++ [45]) (b ++ [45]) -> ~ digit_ext (b ++ [45]) (a ++ [45]) ->
+  is_digit c1 = true -> is_digit c2 = true ->
+  (a ++ [45]) ++ c1 :: r1 = (b ++ [45]) ++ c2 :: r2 -> False.
+Proof.
+  intros Ne N1 N2 D1 D2 E. apply app_eq_app in E as [l [[E1 E2]|[E1 E2]]].
+  - destruct l as [|x l].
+    + rewrite app_nil_r in E1. apply app_inj_tail in E1 as [E1 _]. contradiction.
+    + cbn in E2. inversion E2; subst x. apply N2. exists c2, l. auto.
+  - destruct l as [|x l].
+    + rewrite app_nil_r in E1. apply app_inj_tail in E1 as [E1 _]. congruence.
+    + cbn in E2. inversion E2; subst x. apply N1. exists c1, l. auto.
+Qed.
+
+Lemma sql_cmp_class_lt a b : sql_class a < sql_class b -> sql_cmp a b = Lt.
+Proof. intros H. unfold sql_cmp. unfold Z.lt in H. rewrite H. reflexivity. Qed.
+Lemma sql_cmp_class_gt a b : sql_class a > sql_class b -> sql_cmp a b = Gt.
+Proof. intros H. unfold sql_cmp. unfold Z.gt in H. rewrite H. reflexivity. Qed.
+
+(* no key lies in the ranges of two disjoint prefixes *)
+Theorem ranges_disjoint p q r : prefix_disjoint p q -> in_range p r = true -> in_range q r = false.
+Proof.
+  intros D Ip. destruct (in_range q r) eqn:Iq; [exfalso|reflexivity].
+  apply in_range_spec in Ip as [_ [Gp Lp]]. apply in_range_spec in Iq as [_ [Gq Lq]].
+  destruct p as [a|], q as [b|]; cbn [prefix_disjoint] in D; try contradiction.
+  - destruct (rkey r) as [|z|f|s|bb] eqn:K;
+      try (rewrite sql_cmp_class_lt in Gp by (cbn; lia); discriminate);
+      try (rewrite sql_cmp_class_gt in Lp by (cbn; lia); discriminate).
+    destruct (text_in_range_shape a s Gp Lp) as [c1 [r1 [D1 E1]]].
+    destruct (text_in_range_shape b s Gq Lq) as [c2 [r2 [D2 E2]]].
+    destruct D as [Ne [N1 N2]]. rewrite E1 in E2. exact (shapes_clash a b c1 r1 c2 r2 Ne N1 N2 D1 D2 E2).
+  - destruct (rkey r) as [|z|f|s|bb] eqn:K;
+      try (rewrite sql_cmp_class_lt in Gp by (cbn; lia); discriminate);
+      try (rewrite sql_cmp_class_gt in Lp by (cbn; lia); discriminate).
+    rewrite sql_cmp_class_gt in Lq by (cbn; lia). discriminate.
+  - destruct (rkey r) as [|z|f|s|bb] eqn:K;
+      try (rewrite sql_cmp_class_lt in Gq by (cbn; lia); discriminate);
+      try (rewrite sql_cmp_class_gt in Lq by (cbn; lia); discriminate).
+    rewrite sql_cmp_class_gt in Lp by (cbn; lia). discriminate.
+Qed.
+
+(* a key made by push for p never lies in the range of a disjoint q, whatever its number *)
+Lemma made_key_outside p q r n : prefix_disjoint p q -> rkey r = qkey_make p n -> in_range q r = false.
+Proof.
+  intros D K. destruct (in_range q r) eqn:Iq; [exfalso|reflexivity].
+  apply in_range_spec in Iq as [_ [Gq Lq]]. rewrite K in Gq, Lq.
+  destruct p as [a|], q as [b|]; cbn [prefix_disjoint qkey_make] in *; try contradiction.
+  - destruct (text_in_range_shape b _ Gq Lq) as [c2 [r2 [D2 E2]]].
+    destruct D as [Ne [N1 N2]].
+    assert (Hd : exists c1 r1, is_digit c1 = true /\ digits_pad (Z.to_nat push_key_digits) n = c1 :: r1).
+    { change (Z.to_nat push_key_digits) with 15%nat.
+      destruct (digits_pad 15 n) as [|c1 r1] eqn:Dg; [apply (f_equal (@length Z)) in Dg; rewrite digits_pad_length in Dg; discriminate|].
+      exists c1, r1. split; [|reflexivity].
+      assert (R : 48 <= c1 <= 57) by (apply (digits_pad_range 15 n); rewrite Dg; left; reflexivity).
+      unfold is_digit. apply andb_true_iff. split; apply Z.leb_le; lia. }
+    destruct Hd as [c1 [r1 [D1 E1]]]. rewrite E1 in E2. rewrite app_assoc in E2. exact (shapes_clash a b c1 r1 c2 r2 Ne N1 N2 D1 D2 E2).
+  - rewrite sql_cmp_class_gt in Lq by (cbn; lia). discriminate.
+  - rewrite sql_cmp_class_lt in Gq by (cbn; lia). discriminate.
+Qed.
+
+Lemma view_of_frame p q s s' :
+  (forall r, in_range q r = true -> in_range p r = false) -> frame p s s' -> queue_view q s' = queue_view q s.
+Proof.
+  intros D F. unfold queue_view. f_equal.
+  rewrite <- (filter_absorb (in_range q) (fun x => negb (in_range p x)) (rows s')),
+          <- (filter_absorb (in_range q) (fun x => negb (in_range p x)) (rows s)).
+  - unfold frame in F. rewrite F. reflexivity.
+  - intros x _ Hx. rewrite (D x Hx). reflexivity.
+  - intros x _ Hx. rewrite (D x Hx). reflexivity.
+Qed.
+
+(* queues with disjoint prefixes, and every row outside the range of p, are untouched by operations on p *)
+Theorem isolation_partial c s p q :
+  prefix_disjoint p q -> st_ok s ->
+  (forall sd now, let s' := fst (op_pull c s p sd now) in queue_view q s' = queue_view q s /\ frame p s s') /\
+  (forall sd now, let s' := fst (op_peek c s p sd now) in queue_view q s' = queue_view q s /\ frame p s s') /\
+  (forall v read sd_ expire tag now pg sd,
+     store (c_codec c) (c_min_file_size c) v read = StOk sd ->
+     cull_quiet c now pg (push_state s p sd_ expire tag now sd) ->
+     let s' := fst (op_push c s v read p sd_ expire tag now pg) in
+     queue_view q s' = queue_view q s /\
+     exists r, rows s' = rows s ++ [r] /\ RKey (rkey r) = snd (op_push c s v read p sd_ expire tag now pg)).
+Proof.
+  intros D Ok.
+  assert (DQ : forall r, in_range q r = true -> in_range p r = false).
+  { intros r Hq. destruct (in_range p r) eqn:Hp; [|reflexivity].
+    rewrite (ranges_disjoint p q r D Hp) in Hq. discriminate. }
+  split; [|split].
+  - intros sd now. cbv zeta. destruct (pull_loop_frame c p sd now (S (length (rows s))) s Ok) as [F _].
+    split; [eapply view_of_frame; eauto|exact F].
+  - intros sd now. cbv zeta. destruct (peek_loop_frame c p sd now (S (length (rows s))) s Ok) as [F _].
+    split; [eapply view_of_frame; eauto|exact F].
+  - intros v read sd_ expire tag now pg sd St Q. cbv zeta.
+    rewrite (op_push_eq _ _ _ _ _ _ _ _ _ _ _ St), (cull_quiet_noop _ _ _ _ Q). cbn [fst snd].
+    change (fs_remove (push_state s p sd_ expire tag now sd) []) with (push_state s p sd_ expire tag now sd).
+    split; [|exists (push_row s p sd_ expire tag now sd); split; [apply push_state_rows|reflexivity]].
+    unfold queue_view. rewrite push_state_rows, filter_app. cbn [filter].
+    rewrite (made_key_outside p q (push_row s p sd_ expire tag now sd) _ D eq_refl). rewrite app_nil_r. reflexivity.
+Qed.
+
+(* ordinary keys that can never be taken for queue members of prefix p *)
+Theorem ordinary_outside p r :
+  rraw r = false \/ rkey r = SNull \/ (exists b, rkey r = SBlob b) \/
+  (p = None /\ exists t, rkey r = SText t) \/
+  (p = None /\ exists z, rkey r = SInt z /\ (z <= push_min_key \/ push_max_key <= z)) \/
+  (p <> None /\ ((exists z, rkey r = SInt z) \/ (exists f, rkey r = SReal f))) ->
+  in_range p r = false.
+Proof.
+  intros H. destruct (in_range p r) eqn:I; [exfalso|reflexivity].
+  apply in_range_spec in I as [R [G L]].
+  destruct H as [H|[H|[[b H]|[[-> [t H]]|[[-> [z [H Hz]]]|[Np H]]]]]].
+  - congruence.
+  - rewrite H in G. rewrite sql_cmp_class_lt in G; [discriminate|]. destruct p; cbn; lia.
+  - rewrite H in L. rewrite sql_cmp_class_gt in L; [discriminate|]. destruct p; cbn; lia.
+  - rewrite H in L. rewrite sql_cmp_class_gt in L; [discriminate|]. cbn; lia.
+  - rewrite H in G, L. cbn [qkey_min qkey_max] in G, L. rewrite sql_cmp_int in G, L.
+    apply Z.compare_gt_iff in G. change (z < push_max_key) in L. lia.
+  - destruct p as [a|]; [|congruence]. destruct H as [[z H]|[f H]]; rewrite H in G;
+      (rewrite sql_cmp_class_lt in G; [discriminate|cbn; lia]).
+Qed.
+
+(* ================================================================== validity range of the key scheme *)
+Theorem key_range p r n :
+  0 <= n < key_bound -> rkey r = qkey_make p n -> rraw r = true ->
+  (in_range p r = true <-> push_min_key < n < push_max_key).
+Proof.
+  intros Hn K R. rewrite (in_range_make p r n Hn K), R. cbn [andb]. rewrite andb_true_iff, !Z.ltb_lt. tauto.
+Qed.
+
+(* in terms of how far the queue has grown on each side of the start key *)
+Theorem range_counts n_front n_back :
+  0 <= n_front -> 0 <= n_back ->
+  ((push_min_key < push_start - n_front /\ push_start + n_back < push_max_key) <->
+   (n_front <= 499999999999999 /\ n_back <= 499999999999998)).
+Proof. unfold push_min_key, push_start, push_max_key. lia. Qed.
+
+(* string keys keep exactly 15 digits after the last '-' and the digits read back as the number *)
+Theorem key_digits p n : 0 <= n < key_bound ->
+  exists d, qkey_make (Some p) n = SText (p ++ 45 :: d) /\ length d = 15%nat /\ parse_digits 0 d = n /\
+            (forall x, In x d -> 48 <= x <= 57).
+Proof.
+  intros Hn. exists (digits_pad 15 n). split; [reflexivity|]. split; [apply digits_pad_length|]. split.
+  - apply parse_digits_pad. exact Hn.
+  - intros x. apply digits_pad_range.
+Qed.
+
+(* ================================================================== the refutation of full isolation (finding D11) *)
+Definition wit_codec : codec := {| pkk := fun _ => []; pkv := fun _ => []; unpk := fun _ => None |}.
+Definition wit_cfg : cfg :=
+  {| c_policy := PNone; c_size_limit := 1073741824; c_cull_limit := 0; c_min_file_size := 32768; c_codec := wit_codec |}.
+Definition wit_p : option (list Z) := Some [97].                 (* 'a'   *)
+Definition wit_q : option (list Z) := Some [97; 45; 53].         (* 'a-5' *)
+Definition wit_s1 : st := fst (op_push wit_cfg init_st (VInt 7) false wit_q Back None SNull 0 0).
+Definition wit_key : sqlval :=
+  SText [97; 45; 53; 45; 53; 48; 48; 48; 48; 48; 48; 48; 48; 48; 48; 48; 48; 48; 48].   (* 'a-5-500000000000000' *)
+
+(* the full statement: for ALL p <> q an operation on p leaves the queue of q alone *)
+Definition isolation_full : Prop :=
+  forall c s p q sd now, p <> q -> st_ok s -> prefix_clean q s ->
+    queue_view q (fst (op_pull c s p sd now)) = queue_view q s.
+
+Lemma wit_s1_rows : exists r, rows wit_s1 = [r] /\ rkey r = wit_key /\ rraw r = true /\ rowid r = 1.
+Proof. eexists. vm_compute. repeat split. Qed.
+
+Theorem isolation_refuted_witness :
+  wit_p <> wit_q /\ st_ok wit_s1 /\ prefix_clean wit_q wit_s1 /\
+  snd (op_push wit_cfg init_st (VInt 7) false wit_q Back None SNull 0 0) = RKey wit_key /\
+  snd (op_pull wit_cfg wit_s1 wit_p Front 0) = RKV wit_key true (FVal (VInt 7)) None SNull /\
+  length (queue_view wit_q wit_s1) = 1%nat /\
+  queue_view wit_q (fst (op_pull wit_cfg wit_s1 wit_p Front 0)) = [].
+Proof.
+  split; [discriminate|]. split; [|split].
+  - unfold st_ok. vm_compute. repeat constructor. intros [].
+  - intros r Hr _. exists 500000000000000. split; [unfold key_bound; lia|].
+    destruct wit_s1_rows as [r1 [E [K _]]]. rewrite E in Hr. destruct Hr as [<-|[]]. rewrite K. reflexivity.
+  - repeat split; vm_compute; reflexivity.
+Qed.
+
+Theorem isolation_refuted : ~ isolation_full.
+Proof.
+  intros H. destruct isolation_refuted_witness as [Ne [Ok [C [_ [_ [L E]]]]]].
+  specialize (H wit_cfg wit_s1 wit_p wit_q Front 0 Ne Ok C). rewrite E in H. rewrite <- H in L. discriminate.
+Qed.
+
+(* the pair of the witness is exactly what prefix_disjoint excludes *)
+Example wit_not_disjoint : ~ prefix_disjoint wit_p wit_q.
+Proof. intros [_ [N _]]. apply N. exists 53, [45]. split; reflexivity. Qed.
+
+(* ... while 'a' / 'b', 'a' / 'a-' (the '-' after "a-" is not a digit) and None / anything are disjoint *)
+Example disjoint_examples :
+  prefix_disjoint (Some [97]) (Some [98]) /\ prefix_disjoint (Some [97]) (Some [97; 45]) /\
+  prefix_disjoint None (Some [97]) /\ prefix_disjoint (Some []) (Some [97]).
+Proof.
+  assert (T : forall a b, a <> b -> (forall c t, is_digit c = true -> b ++ [45] <> (a ++ [45]) ++ c :: t) ->
+                          (forall c t, is_digit c = true -> a ++ [45] <> (b ++ [45]) ++ c :: t) ->
+                          prefix_disjoint (Some a) (Some b)).
+  { intros a b Ne H1 H2. split; [exact Ne|]. split; intros [c [t [D E]]]; [eapply H1|eapply H2]; eauto. }
+  split; [|split; [|split; [exact I|]]]; apply T; try discriminate; cbn; intros c t D E; inversion E; subst; discriminate.
+Qed.
+
+(* ================================================================== non-vacuity of the hypotheses *)
+Definition ex_cfg : cfg :=
+  {| c_policy := PLRS; c_size_limit := 1073741824; c_cull_limit := 10; c_min_file_size := 2; c_codec := wit_codec |}.
+(* two pushes at the back and one at the front of the integer queue, the second one file-backed and expiring *)
+Definition ex_s : st :=
+  fst (op_push ex_cfg (fst (op_push ex_cfg (fst (op_push ex_cfg init_st (VInt 1) false None Back None SNull 0 4096))
+                                    (VStr [120; 121; 122]) false None Back (Some 2048) SNull 1024 4096))
+               (VInt 3) false None Front None SNull 1024 4096).
+
+Example qinv_satisfiable :
+  qinv ex_cfg None ex_s /\ map (knum None) (queue_view None ex_s) = [499999999999999; 500000000000000; 500000000000001] /\
+  push_min_key < push_num None Back (queue_view None ex_s) < push_max_key /\
+  push_min_key < push_num None Front (queue_view None ex_s) < push_max_key.
+Proof.
+  assert (R : exists r1 r2 r3, rows ex_s = [r1; r2; r3] /\
+            rkey r1 = SInt 500000000000000 /\ rkey r2 = SInt 500000000000001 /\ rkey r3 = SInt 499999999999999).
+  { do 3 eexists. vm_compute. repeat split. }
+  destruct R as [r1 [r2 [r3 [E [K1 [K2 K3]]]]]].
+  split; [|split; [vm_compute; reflexivity|split; vm_compute; split; reflexivity]].
+  split; [|split; [|split]].
+  - unfold st_ok. vm_compute. repeat constructor; cbn; intuition discriminate.
+  - intros r Hr _. rewrite E in Hr. destruct Hr as [<-|[<-|[<-|[]]]];
+      [exists 500000000000000|exists 500000000000001|exists 499999999999999];
+      (split; [unfold key_bound; lia|assumption]).
+  - unfold files_sep. vm_compute. repeat constructor; cbn; intuition discriminate.
+  - intros r Hr. apply in_queue_view in Hr as [Hr _]. rewrite E in Hr.
+    assert (F : forallb (fun x => match fetch_row ex_cfg ex_s x false with FIOError => false | _ => true end) (rows ex_s) = true)
+      by (vm_compute; reflexivity).
+    rewrite forallb_forall in F. rewrite <- E in Hr. specialize (F r Hr). intros X. rewrite X in F. discriminate.
+Qed.
